@@ -1,9 +1,9 @@
-SPECIFICATION Spec
+SPECIFICATION SimSpec
 CONSTANTS
-  MaxId = 14
-  MaxH = 16
-  MaxConn = 7
-  MaxRecv = 6
-  MaxHist = 99
+  MaxId = 40
+  MaxH = 99
+  MaxConn = 10
+  MaxRecv = 12
+  MaxHist = 999
 ACTION_CONSTRAINT EmitBehaviour
 CHECK_DEADLOCK FALSE
